@@ -56,8 +56,11 @@ def admission(ctx: Ctx):
     repo = ctx.repo
     for file, outer_qn in ((URF, "UpdateRequestsFromFile.update"), (CPU, "ChargingPriceUpdate.update"), (URS, "UpdateRequestsSampling.update")):
         outer = repo.func(file, outer_qn)
-        inner = repo.func(file, outer_qn + ".stop_condition")
-        env0 = flow.closure_env(outer.node, "stop_condition")
+        # the predicate handed to the reader in this update, however it is spelled (nested function, lambda)
+        inner = repo.func_opt(file, outer_qn + ".stop_condition") or rules.callable_argument(repo, outer, "read_until_stop_condition", "stop_condition", 0) \
+            or rules.callable_argument(repo, outer, "update_stop_condition", "stop_condition", 0)
+        ctx.require(inner is not None, f"{outer_qn}: the predicate handed to read_until_stop_condition cannot be resolved to a function")
+        env0 = flow.closure_env(outer.node, "stop_condition") if not isinstance(inner.node, ast.Lambda) else {k: v for p_ in flow.paths(outer.node)[:1] for k, v in p_.env.items()}
         simp = outer.params[1]
         ps = [p for p in flow.paths(inner.node, env0) if p.kind == "return"]
         ctx.require(len(ps) == 1, f"{outer_qn}.stop_condition: unrecognised shape")
@@ -70,7 +73,8 @@ def admission(ctx: Ctx):
         installed = False
         for p in flow.paths(outer.node):
             for e in p.events:
-                if e.name in ("read_until_stop_condition", "update_stop_condition") and e.call.args and flow.dump(e.call.args[0]) == "stop_condition":
+                if e.name in ("read_until_stop_condition", "update_stop_condition") and e.raw.args and (
+                        flow.dump(e.raw.args[0]) == "stop_condition" or (isinstance(inner.node, ast.Lambda) and e.raw.args[0] is inner.node)):
                     installed = True
         ctx.check(installed, "D1", "CMP.admit", f"{outer_qn}: this step's predicate is installed on the reader before rows are consumed", outer,
                   why_bad="stop_condition not passed to the reader", construct=f"{outer_qn}:installed")
